@@ -76,9 +76,32 @@ pub struct Exec {
 pub fn resolve(root: &VfsPath, s: &str) -> Result<VfsPath, VfsError> {
     if s.is_empty() {
         Ok(root.clone())
+    } else if s.contains(crate::model::JOIN_SEP) {
+        // successive joins: the later arguments are resolved against a NON-root base
+        let mut cur = root.clone();
+        for seg in s.split(crate::model::JOIN_SEP) {
+            if !seg.is_empty() {
+                cur = cur.join(seg)?;
+            }
+        }
+        Ok(cur)
     } else {
         root.join(s)
     }
+}
+
+/// No generator emits copy_dir/move_dir into the source's own subtree (documented
+/// non-termination). If the LIBRARY resolves the two path expressions to such a pair anyway (a
+/// broken join), the call is not made - it would not return - and the step fails instead.
+pub fn own_subtree_guard(pa: &P, pb: &P, a: &str, b: &str) -> Result<(), ErrInfo> {
+    let generated_inside = match (crate::model::canon(&pa.s), crate::model::canon(&pb.s)) {
+        (Ok(ca), Ok(cb)) => pa.fs == pb.fs && (crate::model::is_under(&cb, &ca) || (ca.is_empty() && !cb.is_empty())),
+        _ => true,
+    };
+    if !generated_inside && pa.fs == pb.fs && (b.starts_with(&format!("{}/", a)) || (a.is_empty() && !b.is_empty())) {
+        return Err(ErrInfo { class: ErrClass::Other, path: b.to_string(), display: format!("SIMULATOR-GUARD: the library resolved the destination to '{}', inside the source '{}' - call not made", b, a), io_only: false });
+    }
+    Ok(())
 }
 
 fn panic_msg(e: Box<dyn std::any::Any + Send>) -> String {
@@ -244,12 +267,14 @@ impl Exec {
                 let (a, b) = (self.path(a).map_err(v)?, self.path(b).map_err(v)?);
                 a.move_file(&b).map(|_| Out::Unit).map_err(v)
             }
-            Op::CopyDir(a, b) => {
-                let (a, b) = (self.path(a).map_err(v)?, self.path(b).map_err(v)?);
+            Op::CopyDir(pa, pb) => {
+                let (a, b) = (self.path(pa).map_err(v)?, self.path(pb).map_err(v)?);
+                own_subtree_guard(pa, pb, a.as_str(), b.as_str())?;
                 a.copy_dir(&b).map(Out::Count).map_err(v)
             }
-            Op::MoveDir(a, b) => {
-                let (a, b) = (self.path(a).map_err(v)?, self.path(b).map_err(v)?);
+            Op::MoveDir(pa, pb) => {
+                let (a, b) = (self.path(pa).map_err(v)?, self.path(pb).map_err(v)?);
+                own_subtree_guard(pa, pb, a.as_str(), b.as_str())?;
                 a.move_dir(&b).map(|_| Out::Unit).map_err(v)
             }
             Op::SetTime(p, f, secs, nanos) => {
